@@ -137,8 +137,13 @@ class Scheduler(object):
             t.exc = ex
             t.exc_info = sys.exc_info()
         finally:
+            # dropping our reference to the thread's last frame may run finalizers (proxy release notices ...) that
+            # reach scheduling points: that must happen while the thread still counts as running
+            try:
+                t.frame = None
+            except BaseException:    # noqa
+                pass
             t.state = "done"
-            t.frame = None
             _tls.sched = None
             _tls.lthread = None
             try:
@@ -313,6 +318,10 @@ class Scheduler(object):
             self._ctl.release()
             return
         self.steps += 1
+        if self.current is not me:
+            # somebody runs without holding the baton (e.g. a finalizer executed on a foreign thread): a harness bug
+            self.errors.append("BATON: %s (%s) entered the scheduler at step %d while %s holds the baton" % (
+                me.name, kind, self.steps, self.current.name if self.current else None))
         if self.steps > self.max_steps:
             self._finish("steps")
             if me.state != "done":
